@@ -365,7 +365,43 @@ func init() {
 				s.Violation("ReadValue "+hx(d), "tree changed after the input was overwritten", before, "ownership", "returned tree aliases the input")
 			}
 		}
-		return "appending functions (ReadStringBytes, UnescapeStringContent, StdLibCompatibleStringBytes) with a non-empty destination and spare capacities 0..len+8 filled with a canary; ReadString with a dirty scratch buffer; inputs compared before/after every call; returned strings and trees re-checked after overwriting input and scratch", nil
+		// the reader's own scratch for escaped object keys: keys of every length and order in one object, in sibling objects
+		// (one pooled reader) and on a reused reader — a key must not depend on what an earlier key left in the scratch
+		{
+			var kcases []Case
+			esc := []string{`\t`, `\u0020`, `\"`, `\\`, `\u00e9`, `\ud83d\ude00`}
+			key := func(n, e int) string {
+				return strings.Repeat("k", n/2) + esc[e%len(esc)] + strings.Repeat("y", n-n/2)
+			}
+			var r rjson.ValueReader
+			for n1 := 0; n1 <= 40; n1 += 1 + n1/8 {
+				for n2 := 0; n2 <= 72; n2 += 1 + n2/6 {
+					e := n1 + n2
+					docs := []string{
+						fmt.Sprintf(`{"%s":1,"%s":2}`, key(n1, e), key(n2, e+1)),
+						fmt.Sprintf(`[{"%s":1},{"%s":2},{"%s":3}]`, key(n1, e), key(n2, e+1), key(n1/2, e+2)),
+						fmt.Sprintf(`{"p":{"%s":{"%s":1}},"%s":{"%s":2}}`, key(n1, e), key(n2, e+1), key(n2, e+3), key(n1, e+2)),
+					}
+					for _, doc := range docs {
+						h := hx([]byte(doc))
+						kcases = append(kcases, apiCase("key-scratch", "ReadValue", h))
+						kcases = append(kcases, specCase("key-scratch:spec", "specTree 10000 "+h, okErr(runAPI("ReadValue", []string{h}), true)))
+						// the same document on a reader that has been used before: same tree as on a fresh one
+						s.Evaluations++
+						s.Classes["key-scratch:reused"]++
+						fresh, _, ferr := rjson.ReadValue([]byte(doc))
+						got, _, gerr := r.ReadValue([]byte(doc))
+						if (ferr == nil) != (gerr == nil) || (ferr == nil && renderVal(fresh) != renderVal(got)) {
+							s.Violation("ReadValue "+h+" on a reused reader", cut(renderVal(got)), cut(renderVal(fresh)), "key-scratch", "a key depends on what an earlier call left in the reader's scratch")
+						}
+					}
+				}
+			}
+			if err := s.Run(kcases); err != nil {
+				return "", err
+			}
+		}
+		return "escaped object keys of every length and order against the model and the specification, on fresh and reused readers; appending functions (ReadStringBytes, UnescapeStringContent, StdLibCompatibleStringBytes) with a non-empty destination and spare capacities 0..len+8 filled with a canary; ReadString with a dirty scratch buffer; inputs compared before/after every call; returned strings and trees re-checked after overwriting input and scratch", nil
 	}
 }
 
